@@ -73,6 +73,8 @@ def run(facts, rep, tier, ctx):
         "create_dir": ("R03.1", ("parent exists", "target vacant")),
         "create_file": ("R03.1", ("parent exists", "target is not a directory")),
         "append_file": ("R03.1", ("target is a file",)),
+        # (a reader handed out for a directory is what the generic copy — the overlay's copy-up — turns into a file over that directory)
+        "open_file": ("R03.1", ("target is a file",)),
         "remove_file": ("R03.2", ("target is a file",)),
         "remove_dir": ("R03.2", ("target is a directory", "directory empty")),
         # native same-filesystem transfers (none today): the backend must place entries below a directory itself
@@ -126,6 +128,17 @@ def run(facts, rep, tier, ctx):
             op = desc.split(":")[0]
             if op in want and (any(("'%s" % g) in desc for g in want[op][1]) or desc.endswith(" present")):
                 rep.ob("A/" + want[op][0], o["fn"], desc, o["ok"], o["detail"], o["loc"])
+    # R03.11 create_dir_all creates every missing segment through the backend and tolerates "already a directory" only from the
+    # backend's own answer: a remembered "this directory exists" (a cache on the shared VFS object) outlives a remove_dir and lets a
+    # directory be created below what has meanwhile become a file (shared with C01 R01.1c / C17 R17.1)
+    from ..pathrules import PathRules as _PR3c
+    from ..panics import Discharger as _D3c, load_records as _lr3c
+    import os as _os3c
+    _D3 = _D3c(facts, _lr3c(_os3c.path.join(ctx["V"], "rules", "panic_records.json")))
+    from .c10 import _Prefixed as _Pf3c
+    for w3c in (ws, wa):
+        if w3c.present():
+            _PR3c(facts, w3c, _D3).create_dir_all(rep if not w3c.asyncw else _Pf3c(rep, "A"), "R03.11")
     # R03.3 publication; R03.6 the guards above hold *when the mutation happens*: check and mutation of the in-memory
     # backends share one critical section (C16's R16.1 / R16.5 / R16.6) — a guard evaluated under an earlier lock is stale
     from . import c16
